@@ -87,8 +87,10 @@ class Lifting(metaclass=ABCMeta):
 
         else:
             assert not is_active
-            self._negative_lifting_rates.append(-lifting_rate)
-            self._associated_identifiers.append(associated_identifier)
+            if lifting_rate < 0.0:
+                # A unit with a vanishing factor derivative must never be selected as the next active unit.
+                self._negative_lifting_rates.append(-lifting_rate)
+                self._associated_identifiers.append(associated_identifier)
 
     @abstractmethod
     def get_active_identifier(self) -> Any:
